@@ -132,6 +132,9 @@ def exec_c03(cfg, devs):
             return ':sel'
         return ''
     ex.env.label_fn = label_fn
+    if cfg.get('unsol_at_connect') and dev.params:
+        # the firmware announces a changed parameter value right at connect, before any table has been downloaded
+        ex.env.hello_packets = [dev.value_updated_packet(0)]
     nodrop = tuple(m for m in menu if m != 'drop')
     # link-control / platform requests carry no expected reply (no retry): losing them is outside C03
     ex.env.reply_filter = lambda h, payload: nodrop if ((h >> 4) & 15) in (15, 13) else None
@@ -246,7 +249,13 @@ def configs_small():
         out.append(c)
     for cache in ('rw', 'ro'):
         out.append(_cfg('small:cache-%s' % cache, 10, True, 2, 3, cache=cache))
+        c = _cfg('small:cache-%s:unsol' % cache, 10, True, 2, 3, cache=cache)
+        c['unsol_at_connect'] = True
+        out.append(c)
         out.append(_cfg('small:cache-%s-v1' % cache, 3, True, 2, 2, cache=cache))
+    c = _cfg('small:p10:l2p3:rs:unsol', 10, True, 2, 3, style='long', resend=True)
+    c['unsol_at_connect'] = True
+    out.append(c)
     return out
 
 
@@ -279,7 +288,8 @@ def run(ck):
                'deviation; distinct = (configuration, vector)')
     ck.assume('SimCF (vf/simcf.py) is the reference for the device tables and the TOC wire protocol (V1 and V2)')
     ck.assume('a library thread that is slow by itself for longer than a retry period is outside the explored space')
-    ck.assume('unsolicited packets during the download and names containing "." are not exercised')
+    ck.assume('unsolicited packets: one parameter value-changed notification queued at connect (three configurations); names '
+              'containing "." are not exercised')
     small = configs_small()
     large = configs_large(ck.quick)
     r1 = explore(ck, exec_c03, small, 1)
